@@ -1,10 +1,12 @@
 package core
 
 import (
+	"fmt"
 	"go/ast"
 	"go/constant"
 	"go/token"
 	"go/types"
+	"os"
 	"sort"
 	"strings"
 )
@@ -199,6 +201,49 @@ type FlowSpec struct {
 	// Forall facts: generated on the normal exit edge of a loop whose every
 	// iteration establishes Inner (see ForallGuard).
 	Foralls []ForallGuard
+	// FailCalls fixes the outcome of every call to the listed callees (used by
+	// FailStops: "assume the check fails; the sink must be unreachable").
+	FailCalls []FailCall
+}
+
+// FailCall assumes that result #Idx (-1 = last) of calls to Callee has Outcome.
+type FailCall struct {
+	Callee  NameSet
+	Idx     int
+	Outcome Outcome // OErrNonNil, OErrNil, OTrue or OFalse
+	ArgOK   func(c *Ctx, call *ast.CallExpr) bool
+}
+
+func (fc *FailCall) val() Tri {
+	switch fc.Outcome {
+	case OErrNonNil, OTrue:
+		return True
+	}
+	return False
+}
+
+// failOutcome returns the assumed value of result idx of call (Unknown if none).
+func (spec *FlowSpec) failOutcome(c *Ctx, call *ast.CallExpr, idx, n int) Tri {
+	if spec == nil {
+		return Unknown
+	}
+	for i := range spec.FailCalls {
+		fc := &spec.FailCalls[i]
+		if !fc.Callee.Has(Callee(c.Info, call)) {
+			continue
+		}
+		if fc.ArgOK != nil && !fc.ArgOK(c, call) {
+			continue
+		}
+		want := fc.Idx
+		if want < 0 {
+			want = n + want
+		}
+		if want == idx {
+			return fc.val()
+		}
+	}
+	return Unknown
 }
 
 // ForallGuard lifts a per-iteration fact to a post-loop fact.
@@ -282,6 +327,17 @@ func RunFlow(f *FuncInfo, spec *FlowSpec) *Flow {
 		}
 		if !changed {
 			break
+		}
+	}
+	if dbg := os.Getenv("VERIF_DEBUG"); dbg != "" && dbg == f.Name {
+		fmt.Fprintf(os.Stderr, "=== flow of %s (forallOK=%v)\n", f.Name, fl.forallOK)
+		for _, n := range g.Nodes {
+			live := fl.In[n] != nil
+			var succ []string
+			for _, e := range n.Succ {
+				succ = append(succ, fmt.Sprintf("%d(%v,%s,feas=%v,facts=%v,cond=%v)", e.To.ID, e.Val, e.Kind, fl.Feasible(e), fl.EdgeIn[e].FactList(), e.Cond != nil))
+			}
+			fmt.Fprintf(os.Stderr, "  n%d kind=%d live=%v `%s` in=%v -> %v\n", n.ID, n.Kind, live, ExprStr(n.Ast), fl.In[n].FactList(), succ)
 		}
 	}
 	return fl
@@ -563,11 +619,20 @@ func (fl *Flow) transfer(n *GNode, st *State) {
 		}
 		cps = append(cps, x)
 	}
-	for _, o := range assignedObjs(info, a) {
-		st.kill(o)
+	isRead := false
+	if id, ok := a.(*ast.Ident); ok && !fl.G.AssignIdents[id] {
+		isRead = true // a bare identifier used as condition / switch tag is a read, not a range/select assignment
+	}
+	if !isRead {
+		for _, o := range assignedObjs(info, a) {
+			st.kill(o)
+		}
 	}
 	for _, b := range binds {
 		st.Bind[b.o] = b.b
+		if t := fl.Spec.failOutcome(c, b.b.Call, b.b.Idx, b.b.N); t != Unknown {
+			st.Val[b.o] = t
+		}
 	}
 	for _, l := range lits {
 		st.Val[l.o] = l.v
@@ -728,6 +793,12 @@ func eval3(c *Ctx, spec *FlowSpec, e ast.Expr, st *State, extra func(ast.Expr) T
 		return triOf(constant.BoolVal(tv.Value))
 	}
 	switch x := e.(type) {
+	case *ast.CallExpr:
+		if tv, ok := c.Info.Types[x]; ok && tv.Type != nil && isBool(tv.Type) {
+			if t := spec.failOutcome(c, x, 0, 1); t != Unknown {
+				return t
+			}
+		}
 	case *ast.Ident:
 		if o := c.Info.ObjectOf(x); o != nil && st != nil {
 			if v, ok := st.Val[o]; ok && isBool(o.Type()) {
@@ -762,6 +833,17 @@ func eval3(c *Ctx, spec *FlowSpec, e ast.Expr, st *State, extra func(ast.Expr) T
 				other = x.Y
 			} else if isNilExpr(c.Info, x.Y) {
 				other = x.X
+			}
+			if other != nil {
+				if call, ok := ast.Unparen(other).(*ast.CallExpr); ok {
+					if t := spec.failOutcome(c, call, 0, 1); t != Unknown {
+						isNil := t == False
+						if x.Op == token.EQL {
+							return triOf(isNil)
+						}
+						return triOf(!isNil)
+					}
+				}
 			}
 			if other != nil && st != nil {
 				if id, ok := ast.Unparen(other).(*ast.Ident); ok {
@@ -925,7 +1007,7 @@ func (fl *Flow) learn(at Atom, st *State) {
 		}
 	}
 	if subject == nil {
-		if tv, ok := c.Info.Types[e]; ok && tv.Type != nil && isBool(tv.Type) {
+		if t := c.Info.TypeOf(e); t != nil && isBool(t) {
 			subject = e
 			if at.Val {
 				oc = OTrue
